@@ -125,4 +125,68 @@ theorem C01_table_stable_conc {thr : List Thr} (h0 : InitThreads thr) {s : Sys} 
   · intro c pc pc' sh' sp h hne
     cases pc <;> act_cases h <;> simp_all
 
+
+/-- C12 (concurrent clause, finding F1' / repair 0c7a2e0): the scope's own `Close` takes the children
+out of the table before it cancels the context —
+(1) unless the USER cancelled the context, the context is cancelled only after the snapshot was taken,
+    so `S.Close` never wakes a child's watcher while the child can still slip out of the table;
+(2) the snapshot is the whole table at that moment (`cTake`);
+(3) every child of the snapshot stays on the closer's work list until its disposal has completed:
+    the closer disposes it itself, or waits at `<-child.closed` (`kWait`, enabled only when the
+    child's `closed` is signalled, which happens after its `closeErr` was written) and then reads
+    the outcome; in particular
+(4) when `S.closed` is signalled, every child of the snapshot has completed its disposal. -/
+theorem C12_child_error_collected_conc {thr : List Thr} (h0 : InitThreads thr) {s : Sys} (r : Reach (init thr) s) :
+    (s.sh.cancelled = true → s.sh.userCancelled = true ∨ s.sh.children = none) ∧
+    (∀ c k, act c s.sh (.cTake k) = some (.cCancel (order c (s.sh.children.getD [])) k,
+        { s.sh with children := none, snap := order c (s.sh.children.getD []) }, [])) ∧
+    (∀ th ∈ s.thr, ∀ l, th.pc.work = some l → ∀ x ∈ s.sh.snap, x ∈ l ∨ x ∈ s.sh.kidClosed) ∧
+    (s.sh.closedSig = true → ∀ x ∈ s.sh.snap, x ∈ s.sh.kidClosed) := by
+  have inv := Inv.reach h0 r
+  exact ⟨inv.collect.canc, fun c k => rfl, inv.collect.cov, inv.collect.sig⟩
+
+/-- C14 / C13 (finding F2, repair 64d7b34): the provider's scope table never keeps a child whose
+`Close` has completed, unless the creator of that child is at this very moment between its
+registration and the re-check that removes it again; in particular never when all calls have
+returned, and a creator that returned a child left no closed child behind. -/
+theorem C14_no_stale_child_in_provider_table {thr : List Thr} (h0 : InitThreads thr) {s : Sys}
+    (r : Reach (init thr) s) (q : Cid) (hfix : ∀ th ∈ s.thr, th.pc ≠ .sRe q ∧ th.pc ≠ .sUndo q)
+    (hclosed : q ∈ s.sh.kidClosed) : s.sh.inTable q = false := by
+  have inv := Inv.reach h0 r
+  cases hin : s.sh.inTable q
+  · rfl
+  · have := inv.stale.stale q hin (Or.inr hclosed)
+    obtain ⟨th, hth, hp⟩ := tot_pos this
+    have := hfix th hth
+    simp only [fixing] at hp
+    cases hpc : th.pc <;> simp_all [Pc.fixing]
+
+/-- … stated for quiescent states: once every call has returned, no closed child is registered. -/
+theorem C14_no_stale_child_when_idle {thr : List Thr} (h0 : InitThreads thr) {s : Sys}
+    (r : Reach (init thr) s) (hfin : ∀ th ∈ s.thr, th.pc.idle = true) (q : Cid) (hclosed : q ∈ s.sh.kidClosed) :
+    s.sh.inTable q = false := by
+  refine C14_no_stale_child_in_provider_table h0 r q (fun th hth => ?_) hclosed
+  have := hfin th hth
+  constructor <;> (intro hpc; simp [hpc, Pc.idle] at this)
+
+/-- C13 (finding F3, repair 0cb30f3): a singleton resolution never reports
+`ErrSingletonNotInitialized`: it returns the singleton, or — when it overlaps a Close — the scope- or
+provider-disposed error. -/
+theorem C13_singleton_overlap_reports_disposed {thr : List Thr} (h0 : InitThreads thr) {s : Sys}
+    (r : Reach (init thr) s) :
+    (∀ th ∈ s.thr, th.pc ≠ .done .notInit) ∧
+    (∀ th ∈ s.thr, ∀ res, th.start = .gChk → th.pc = .done res →
+        res = .okS ∨ res = .disposed ∨ res = .provDisposed) := by
+  have inv := Inv.reach h0 r
+  have h1 : ∀ th ∈ s.thr, th.pc ≠ .done .notInit := by
+    intro th hth hpc
+    have := inv.gate.noNotInit th hth
+    simp [hpc, Pc.isNotInit, Res.isNI] at this
+  refine ⟨h1, ?_⟩
+  intro th hth res hst hpc
+  have hf := inv.fam th hth
+  have hn := h1 th hth
+  rw [hst, hpc] at hf
+  cases res <;> simp_all [Fam, Res.okFor]
+
 end Godi.Conc
